@@ -310,6 +310,27 @@ fn sig_json(sig: &syn::Signature) -> Value {
         "where":sig.generics.where_clause.as_ref().map(|w| ts(w))})
 }
 
+/// every `#[cfg(..)]` / `#[cfg_attr(..)]` attribute and every `cfg!(..)` macro inside a function body (statements, expressions, match arms,
+/// struct-literal fields): the syntax tree handed to the rules does not carry them, so the rules must know they exist
+struct CfgCollector {
+    found: Vec<Value>,
+}
+
+impl<'ast> syn::visit::Visit<'ast> for CfgCollector {
+    fn visit_attribute(&mut self, a: &'ast syn::Attribute) {
+        if a.path().is_ident("cfg") || a.path().is_ident("cfg_attr") {
+            self.found.push(json!({"ln": ln(a.span()), "text": compact(&a.meta.to_token_stream().to_string())}));
+        }
+        syn::visit::visit_attribute(self, a);
+    }
+    fn visit_macro(&mut self, m: &'ast syn::Macro) {
+        if m.path.is_ident("cfg") {
+            self.found.push(json!({"ln": ln(m.span()), "text": format!("cfg!({})", compact(&m.tokens.to_string()))}));
+        }
+        syn::visit::visit_macro(self, m);
+    }
+}
+
 fn fn_json(sig: &syn::Signature, attrs: &[syn::Attribute], vis: Option<&syn::Visibility>, body: Option<&syn::Block>, l: usize) -> Value {
     let mut v = sig_json(sig);
     let o = v.as_object_mut().unwrap();
@@ -317,6 +338,11 @@ fn fn_json(sig: &syn::Signature, attrs: &[syn::Attribute], vis: Option<&syn::Vis
     o.insert("attrs".into(), attrs_json(attrs));
     o.insert("vis".into(), vis.map(|x| Value::String(ts(x))).unwrap_or(Value::Null));
     o.insert("body".into(), body.map(block).unwrap_or(Value::Null));
+    let mut cc = CfgCollector { found: Vec::new() };
+    if let Some(b) = body {
+        syn::visit::Visit::visit_block(&mut cc, b);
+    }
+    o.insert("cfg_inner".into(), Value::Array(cc.found));
     o.insert("ln".into(), json!(l));
     o.insert("end_ln".into(), json!(body.map(|b| b.span().end().line).unwrap_or(l)));
     v
